@@ -134,7 +134,7 @@ class Sys:
                 return table[float(leaf)]
             return leaf
         new = jax.tree_util.tree_map(rep, loss._loss_weights)
-        return eqx.tree_at(lambda l: l._loss_weights, loss, new)
+        return put_at(lambda l: l._loss_weights, loss, new)
 
     def build(self, a, form, ic_on, obs_on, bc_on=()):
         loss, pd, batch = self._build(a, form, ic_on, obs_on, bc_on)
@@ -186,7 +186,7 @@ class Sys:
         if self.kind == "ODE":
             on = [(i, u) for i, u in enumerate(self.uk) if u in ic_on]
             if on:
-                loss = eqx.tree_at(lambda l: [l.u_constraints_dict[u].initial_condition for _, u in on], loss,
+                loss = put_at(lambda l: [l.u_constraints_dict[u].initial_condition for _, u in on], loss,
                                    [(a["t0"], a["u0"][i]) for i, _ in on])
             batch = ODEBatch(temporal_batch=a["pts"], obs_batch_dict=obs if obs_on else None)
         elif self.kind == "statio":
@@ -367,7 +367,7 @@ def per_unknown_config(kind):
                 kw["initial_condition_fun_dict"] = {u: (lambda x, u=u: fic[u](x)) for u in uk}
             loss = SystemLossPDE(**kw)
             # symbolic normalisation data put in after construction (see Sys.weights for the reason)
-            loss = eqx.tree_at(lambda l: (l.u_constraints_dict["u"].norm_samples, l.u_constraints_dict["u"].norm_int_length), loss, (ns, L))
+            loss = put_at(lambda l: (l.u_constraints_dict["u"].norm_samples, l.u_constraints_dict["u"].norm_int_length), loss, (ns, L))
             obs = {u: {"pinn_in": oin[i], "val": oval[i], "eq_params": {}} for i, u in enumerate(uk)}
             if kind == "statio":
                 batch = PDEStatioBatch(inside_batch=pts_, border_batch=bb, obs_batch_dict=obs)
@@ -424,7 +424,7 @@ def per_unknown_config_ode():
                 loss = SystemLossODE(u_dict={u: nets[u].u for u in uk}, dynamic_loss_dict=dyn, params_dict=pd,
                                      loss_weights=LossWeightsODEDict(dyn_loss=0.0, **W), obs_slice_dict=dict(oslice),
                                      initial_condition_dict={u: (0.5, np.zeros((2,))) for u in uk})
-            loss = eqx.tree_at(lambda l: [l.u_constraints_dict[u].initial_condition for u in uk], loss, [(t0, u0[i]) for i in range(2)])
+            loss = put_at(lambda l: [l.u_constraints_dict[u].initial_condition for u in uk], loss, [(t0, u0[i]) for i in range(2)])
             obs = {u: {"pinn_in": oin[i], "val": oval[i], "eq_params": {}} for i, u in enumerate(uk)}
             tot, ts = loss.evaluate(pd, ODEBatch(temporal_batch=pts_, obs_batch_dict=obs))
             exp = {t: 0.0 for t in W}
@@ -530,7 +530,7 @@ def system_param_batch_ob(kind, n_eq, n_u):
         def fn(*args):
             a = dict(zip(names, args))
             loss, pd, batch = S.build(a, {}, ic_on, (), ())
-            batch = eqx.tree_at(lambda b: b.param_batch_dict, batch, {"a": a["acol"]}, is_leaf=lambda x: x is None)
+            batch = put_at(lambda b: b.param_batch_dict, batch, {"a": a["acol"]})
             tot, ts = loss.evaluate(pd, batch)
             return [tot] + [ts[t] for t in keys]
         def spec(*args, wrong=False):
